@@ -367,6 +367,19 @@ func (g *Gen) fill(k Kind, depth int, hidden bool) *Node {
 			n.A = append(n.A, a)
 		}
 	}
+	// two error arguments that are occurrences of the same failure (same
+	// constructors and texts, different annotations)
+	{
+		var ea []int
+		for i, a := range n.A {
+			if a.Kind == ArgErr {
+				ea = append(ea, i)
+			}
+		}
+		if len(ea) >= 2 && g.T.Bool(1, 3) {
+			n.Hid[n.A[ea[1]].Hid] = g.reannotatedClone(n.Hid[n.A[ea[0]].Hid])
+		}
+	}
 	if k == WSafeDetails && g.Cfg.RichArgs && len(n.A) >= 1 && g.T.Bool(1, 8) {
 		// an empty format string with arguments: still an annotation
 		n.S[0] = Str{Safe: true}
@@ -482,19 +495,26 @@ func (g *Gen) correlate(n *Node) {
 		if !g.T.Bool(1, 4) {
 			return
 		}
-		c := cloneNode(n.Kids[0])
-		c.Walk(func(x *Node, _ bool) {
-			switch x.K {
-			case WTelemetry, WHint, WDetail, WIssueLink, WSafeDetails:
-				for i := range x.S {
-					if x.S[i].Tok != "" {
-						x.S[i] = g.SG.Str(x.S[i].Safe)
-					}
+		n.Hid[0] = g.reannotatedClone(n.Kids[0])
+	}
+}
+
+// reannotatedClone returns a copy of src (same constructors and messages) in
+// which the strings of annotation layers are drawn afresh: another occurrence
+// of the same failure.
+func (g *Gen) reannotatedClone(src *Node) *Node {
+	c := cloneNode(src)
+	c.Walk(func(x *Node, _ bool) {
+		switch x.K {
+		case WTelemetry, WHint, WDetail, WIssueLink, WSafeDetails:
+			for i := range x.S {
+				if x.S[i].Tok != "" {
+					x.S[i] = g.SG.Str(x.S[i].Safe)
 				}
 			}
-		})
-		n.Hid[0] = c
-	}
+		}
+	})
+	return c
 }
 
 func cloneNode(n *Node) *Node {
